@@ -9,11 +9,11 @@ fn mk(cs: &mut Cs, marker: &mut u32) -> dr::Instruction {
     *marker += 1;
     let m = *marker;
     match cs.below(9) {
-        0 => dr::Instruction::new(spirv::Op::Undef, Some(7), Some(m), vec![]),
-        1 => dr::Instruction::new(spirv::Op::Name, None, None, vec![Operand::IdRef(m), Operand::LiteralString(cs.string())]),
-        2 => dr::Instruction::new(spirv::Op::Nop, None, Some(m), vec![]),
-        3 => dr::Instruction::new(spirv::Op::Constant, Some(3), Some(m), vec![Operand::LiteralBit64(cs.lit64())]),
-        4 => dr::Instruction::new(spirv::Op::Label, None, Some(m), vec![]),
+        0 => crate::rs::mk_inst(spirv::Op::Undef, Some(7), Some(m), vec![]),
+        1 => crate::rs::mk_inst(spirv::Op::Name, None, None, vec![Operand::IdRef(m), Operand::LiteralString(cs.string())]),
+        2 => crate::rs::mk_inst(spirv::Op::Nop, None, Some(m), vec![]),
+        3 => crate::rs::mk_inst(spirv::Op::Constant, Some(3), Some(m), vec![Operand::LiteralBit64(cs.lit64())]),
+        4 => crate::rs::mk_inst(spirv::Op::Label, None, Some(m), vec![]),
         5 | 6 => {
             // structural opcodes in ANY slot (the fields are public: nothing ties an opcode to
             // the slot it is stored in)
@@ -33,9 +33,9 @@ fn mk(cs: &mut Cs, marker: &mut u32) -> dr::Instruction {
                 spirv::Op::TypeInt,
                 spirv::Op::ExtInstImport,
             ][cs.below(14)];
-            dr::Instruction::new(op, None, Some(m), vec![])
+            crate::rs::mk_inst(op, None, Some(m), vec![])
         }
-        _ => dr::Instruction::new(spirv::Op::IAdd, Some(1), Some(m), vec![Operand::IdRef(cs.below(9) as u32), Operand::IdRef(2)]),
+        _ => crate::rs::mk_inst(spirv::Op::IAdd, Some(1), Some(m), vec![Operand::IdRef(cs.below(9) as u32), Operand::IdRef(2)]),
     }
 }
 
@@ -167,6 +167,62 @@ fn show(v: &[dr::Instruction]) -> String {
     v.iter().map(crate::model::show_inst).collect::<Vec<_>>().join("; ")
 }
 
+/// `over-long`: an instruction longer than 65535 words inside a module
+fn sub_over_long(input: &[u8], st: &mut Stats) -> R {
+    let mut cs = Cs::new(input);
+    // an instruction longer than the 16-bit word-count field can express (a huge id list, an
+    // embedded source text) somewhere inside a module: its first word cannot hold the count, but
+    // the concatenation clause speaks of words only and must hold all the same - whatever
+    // `Instruction::assemble` yields for it alone must appear at its place in the module
+    {
+        let n = 65_530 + cs.below(4000);
+        let small = |k: u32| crate::rs::mk_inst(spirv::Op::Undef, Some(1), Some(100 + k), vec![]);
+        let mut lm = dr::Module::new();
+        if cs.bool() {
+            lm.header = Some(dr::ModuleHeader::new(8));
+        }
+        let (pre, post) = (cs.below(3), cs.below(3));
+        let as_string = cs.bool();
+        let long = if as_string {
+            crate::rs::mk_inst(spirv::Op::String, None, Some(1), vec![Operand::LiteralString("s".repeat(n * 4))])
+        } else {
+            crate::rs::mk_inst(spirv::Op::TypeStruct, None, Some(1), vec![Operand::IdRef(2); n])
+        };
+        for k in 0..pre {
+            lm.capabilities.push(crate::rs::mk_inst(spirv::Op::Capability, None, None, vec![Operand::Capability(spirv::Capability::Shader)]));
+            let _ = k;
+        }
+        if as_string {
+            lm.debug_string_source.push(long);
+        } else {
+            lm.types_global_values.push(long);
+        }
+        for k in 0..post {
+            lm.types_global_values.push(small(k as u32));
+        }
+        let visited: Vec<dr::Instruction> = no_panic("Module::all_inst_iter (over-long instruction)", || lm.all_inst_iter().cloned().collect())?;
+        let asm = no_panic("Module::assemble (over-long instruction)", || lm.assemble())?;
+        let mut want: Vec<u32> = vec![];
+        if let Some(h) = &lm.header {
+            want.extend([h.magic_number, h.version, h.generator, h.bound, h.reserved_word]);
+        }
+        for i in &visited {
+            want.extend(no_panic("Instruction::assemble (over-long instruction)", || i.assemble())?);
+        }
+        if visited.len() != pre + 1 + post || asm != want {
+            return Err(Fail::new(
+                "assemble-concatenation",
+                "over-long-instruction",
+                format!("module with {} instructions before and {} after an instruction of about {} words ({}): assemble() has {} words, header ++ concat(visited instructions) has {} ({} visited)", pre, post, n, if as_string { "string" } else { "id list" }, asm.len(), want.len(), visited.len()),
+            ));
+        }
+        st.count("over_long_instruction_inside_module");
+    }
+    st.evaluations += 1;
+    st.nontrivial(hash64(input));
+    Ok(())
+}
+
 fn sub_modules(input: &[u8], st: &mut Stats) -> R {
     let mut cs = Cs::new(input);
     let mut m = gen_module(&mut cs);
@@ -174,13 +230,13 @@ fn sub_modules(input: &[u8], st: &mut Stats) -> R {
     // assembled on this thread first (an instruction of 20 000 operands, a module of thousands
     // of instructions)
     if cs.below(24) == 0 {
-        let big = dr::Instruction::new(spirv::Op::TypeStruct, None, Some(1), vec![Operand::IdRef(2); 17_000 + cs.below(9000)]);
+        let big = crate::rs::mk_inst(spirv::Op::TypeStruct, None, Some(1), vec![Operand::IdRef(2); 17_000 + cs.below(9000)]);
         let w = no_panic("Instruction::assemble (large)", || big.assemble())?;
         if w.len() != big.operands.len() + 2 {
             return Err(Fail::new("assemble-concatenation", "large-instruction", format!("an instruction with {} operands assembles to {} words", big.operands.len(), w.len())));
         }
         let mut bm = dr::Module::new();
-        bm.types_global_values = vec![dr::Instruction::new(spirv::Op::Undef, Some(1), Some(2), vec![]); 6000];
+        bm.types_global_values = vec![crate::rs::mk_inst(spirv::Op::Undef, Some(1), Some(2), vec![]); 6000];
         let w = no_panic("Module::assemble (large)", || bm.assemble())?;
         if w.len() != 18_000 {
             return Err(Fail::new("assemble-concatenation", "large-module", format!("6000 three-word instructions assemble to {} words", w.len())));
@@ -308,18 +364,19 @@ fn sub_modules(input: &[u8], st: &mut Stats) -> R {
     Ok(())
 }
 
-pub const SUBS: &[Sub] = &[Sub { name: "modules", f: sub_modules }];
+pub const SUBS: &[Sub] = &[Sub { name: "modules", f: sub_modules }, Sub { name: "over-long", f: sub_over_long }];
 
 pub fn run(ctx: &Ctx) {
     run_regress(ctx, SUBS);
     drive_random(ctx, &SUBS[0], ctx.n(60_000, 30_000_000), 600);
+    drive_random(ctx, &SUBS[1], ctx.n(300, 60_000), 64);
 }
 
 pub fn finish(ctx: &Ctx) -> i32 {
     crate::engine::finish(
         ctx,
         Finish {
-            rule: "dr::Module values built directly from the public fields: header / memory model / function def / end / block label each present or absent, every section with 0-3 instructions, 0-3 functions x 0-3 blocks; every instruction carries a unique marker id and a varying word count; a quarter of the instructions carry a structural opcode (OpFunction, OpFunctionEnd, OpLabel, terminators, OpMemoryModel, OpLine ...) in whatever slot they happen to be stored; a third of the modules are sparse (most sections empty); a quarter of the instruction lists contain a run of 2-6 identical instructions. Oracle: own traversal written from the field list; all_inst_iter equals it; global_inst_iter is the prefix before the first function; Function::all_inst_iter is the k-th slice; each _mut traversal visits the same sequence and a mutation through it is seen by the read-only one at the same position; assemble() == header words ++ concat(assemble of each visited instruction) and tiles by word counts; assemble_into appends the same words; Function::assemble and Block::assemble are the corresponding slices. non-trivial = module with >= 1 function and >= 6 instructions; distinct = hash of the assembled words.",
+            rule: "dr::Module values built directly from the public fields: header / memory model / function def / end / block label each present or absent, every section with 0-3 instructions, 0-3 functions x 0-3 blocks; every instruction carries a unique marker id and a varying word count; a quarter of the instructions carry a structural opcode (OpFunction, OpFunctionEnd, OpLabel, terminators, OpMemoryModel, OpLine ...) in whatever slot they happen to be stored; a third of the modules are sparse (most sections empty); a quarter of the instruction lists contain a run of 2-6 identical instructions. Oracle: own traversal written from the field list; all_inst_iter equals it; global_inst_iter is the prefix before the first function; Function::all_inst_iter is the k-th slice; each _mut traversal visits the same sequence and a mutation through it is seen by the read-only one at the same position; assemble() == header words ++ concat(assemble of each visited instruction) and tiles by word counts; assemble_into appends the same words; Function::assemble and Block::assemble are the corresponding slices; `over-long`: a module holding one instruction of 65530-69530 words (an id list or a string; its first word cannot express the count) with 0-2 instructions before and after it, with or without header: assemble() == header ++ concat(visited). non-trivial = module with >= 1 function and >= 6 instructions; distinct = hash of the assembled words.",
             assumptions: vec![],
             trusted_base: vec!["own field-order traversal".into(), "proptest".into()],
         },
